@@ -64,3 +64,42 @@ pub fn good_caller_of_update(j: &mut Joiner, cols: &[Vec<Option<u64>>], n: usize
     j.hashes_buffer.resize(n, 0);
     update(cols, &mut j.hashes_buffer);
 }
+
+/// nested-kernel-consults-validity: seeded positive / negative
+pub struct ListArr {
+    pub offsets: Vec<usize>,
+    pub validity: Option<Vec<bool>>,
+}
+impl ListArr {
+    pub fn null_count(&self) -> usize {
+        self.validity.as_ref().map(|v| v.iter().filter(|b| !**b).count()).unwrap_or(0)
+    }
+    pub fn is_valid(&self, i: usize) -> bool {
+        self.validity.as_ref().map(|v| v[i]).unwrap_or(true)
+    }
+}
+pub fn hash_list_good(a: &ListArr, child: &[u64], out: &mut [u64]) {
+    if a.null_count() > 0 {
+        for i in 0..out.len() {
+            if a.is_valid(i) {
+                for c in &child[a.offsets[i]..a.offsets[i + 1]] {
+                    out[i] = out[i].wrapping_mul(31) ^ c;
+                }
+            }
+        }
+    } else {
+        for i in 0..out.len() {
+            for c in &child[a.offsets[i]..a.offsets[i + 1]] {
+                out[i] = out[i].wrapping_mul(31) ^ c;
+            }
+        }
+    }
+}
+/// seeded: child values under a NULL parent reach the hash
+pub fn hash_list_bad(a: &ListArr, child: &[u64], out: &mut [u64]) {
+    for i in 0..out.len() {
+        for c in &child[a.offsets[i]..a.offsets[i + 1]] {
+            out[i] = out[i].wrapping_mul(31) ^ c;
+        }
+    }
+}
